@@ -20,7 +20,7 @@ RULE = ("(a) util relocated_grid_via_jit_from: exhaustive small lattice borders 
         "at border points / at the centroid; (b) BorderRelocator.relocated_grid_from / relocated_mesh_grid_from and "
         "Delaunay/Voronoi mapper_grids_from on random and structured masks (<= 7x7), sub-size maps from {1,2,4} given as "
         "int / ndarray / Array2D, grids = distorted (affine + jitter) over-sampled grids with outliers; (c) sub_border_slim "
-        "(util + class), sub_border_grid, border_slim_indexes_from on ALL masks with H*W <= 9 (quick) / 12 (thorough) and "
+        "(util + class), sub_border_grid, border_slim_indexes_from on ALL masks with H*W <= 9 (quick) / 11 (thorough) and "
         "random larger ones; (d) furthest_grid_2d_slim_index_from on lattice grids with ties. sqrt results compared to "
         "1e-9; a case with a decision (radius vs smallest border radius, nearest-border radius vs own radius) inside a "
         "1e-6 band between non-identical coordinates is skipped and counted (kind skipped_band). distinct = distinct JSON "
@@ -29,7 +29,7 @@ EXHAUSTIVE = {
     "quick": "all boolean masks of all shapes with H*W <= 9 (sub_border_slim with sub-size 1, 2 and one random {1,2,4} map; "
              "border_slim_indexes_from); util relocation: all 3-point borders on the {-1,0,1}^2 lattice against all 25 points of "
              "{-2..2}^2",
-    "thorough": "as quick with H*W <= 12 and all 3- and 4-point borders on the {-1,0,1}^2 lattice",
+    "thorough": "as quick with H*W <= 11 and all 3- and 4-point borders on the {-1,0,1}^2 lattice",
 }
 TRUSTED = ["correspondence harness harness/c18.py (generators, Fraction(float) conversion, decision-band filter computed "
            "exactly in Fractions)",
@@ -220,11 +220,11 @@ def _gen_inputs(tier, rng):
     yield {"op": "util", "grid": allp[:3], "border": []}
     yield {"op": "util", "grid": [], "border": [[0, 0], [16, 0]]}
     # ---- (a) util, random
-    for _ in range(2000 if big else 200):
+    for _ in range(2000 if big else 150):
         b = rand_border(rng)
         yield {"op": "util", "grid": rand_points(rng, b, rng.randint(1, 10)), "border": b}
     # ---- (c) exhaustive masks
-    lim = 12 if big else 9
+    lim = 11 if big else 9
     for h in range(1, lim + 1):
         for w in range(1, lim // h + 1):
             for m in all_masks(h, w):
@@ -237,7 +237,7 @@ def _gen_inputs(tier, rng):
                 yield {"op": "subborder", "mask": m, "sub": {"kind": "ndarray", "v": [rng.choice([1, 2, 4]) for _ in range(n)]},
                        "via": "util" if (n + w) % 2 else "class"}
     # ---- (b), (c) random masks through the public classes
-    for i in range(2400 if big else 240):
+    for i in range(2400 if big else 180):
         while True:
             m = rand_mask(rng); n = npix(m); sub = rand_sub(rng, n); subs = sub_list(sub, n)
             if sum(v * v for v in subs) <= (64 if big else 40): break
